@@ -56,6 +56,15 @@ type Mem struct {
 	failedWrites  int
 	// FailDeletesOnly restricts the fault window to direct deletes and batches containing deletes.
 	ReadFail func(key string) bool
+	// Yield, if set, is called (without holding the lock) before every read and every write reaches the
+	// datastore: a yield point for the controlled scheduler at datastore-access granularity.
+	Yield func(point string)
+}
+
+func (d *Mem) yield(point string) {
+	if y := d.Yield; y != nil {
+		y(point)
+	}
 }
 
 // New returns an empty datastore.
@@ -82,6 +91,7 @@ func (d *Mem) apply(ops []Op) {
 
 // commit applies ops atomically (or fails atomically inside a fault window).
 func (d *Mem) commit(ops []Op, batch bool) error {
+	d.yield("ds:write")
 	d.mu.Lock()
 	defer d.mu.Unlock()
 	idx := d.writeAttempts
@@ -181,6 +191,7 @@ func (d *Mem) Snapshot() map[string][]byte {
 // ---- datastore.Datastore ----
 
 func (d *Mem) Get(_ context.Context, key datastore.Key) ([]byte, error) {
+	d.yield("ds:get")
 	d.mu.Lock()
 	defer d.mu.Unlock()
 	if d.ReadFail != nil && d.ReadFail(key.String()) {
@@ -194,6 +205,7 @@ func (d *Mem) Get(_ context.Context, key datastore.Key) ([]byte, error) {
 }
 
 func (d *Mem) Has(_ context.Context, key datastore.Key) (bool, error) {
+	d.yield("ds:has")
 	d.mu.Lock()
 	defer d.mu.Unlock()
 	if d.ReadFail != nil && d.ReadFail(key.String()) {
@@ -291,6 +303,7 @@ type memTxn struct {
 }
 
 func (x *memTxn) Get(_ context.Context, key datastore.Key) ([]byte, error) {
+	x.d.yield("ds:txnget")
 	x.mu.Lock()
 	defer x.mu.Unlock()
 	if x.d.ReadFail != nil && x.d.ReadFail(key.String()) {
